@@ -384,3 +384,5 @@ M("c04-checksums-of-the-loaded-file-written-again", ["C04"],
        '                self.checksums[path] = (checksum_type, checksum)\n            self._loaded = dict(self.checksums)\n        self.validate()\n'),
   (TI, '        self.validate()\n        if not self.checksums:\n            return\n        parser.add_section(self._section)\n',
        '        self.validate()\n        for path, value in getattr(self, "_loaded", {}).items():\n            self.checksums.setdefault(path, value)\n        if not self.checksums:\n            return\n        parser.add_section(self._section)\n'))
+M("c11-relative-remainder-vs-absolute-uid", ["C11"],
+  (CI, '            full = "%s-%s" % (self.uid, name) if hasattr(self, "uid") else name\n', '            full = name\n'))
